@@ -44,7 +44,7 @@ PROP = dict(
 
 THEOREMS = ["Wtf.C07." + t for t in (
     "no_override", "fallback_only_when_nothing", "accepts_iff_subseq", "refinement", "target_nul_free", "eqFold_laws", "no_panic",
-    "genuine", "best_first", "best_first_normalised", "complete", "empty_query_no_fallback")]
+    "genuine", "best_first", "best_first_normalised", "complete", "empty_query_no_fallback", "normMono", "best_first_reported")]
 
 ASSERTIONS = ["c07:fallback-sites", "c07:normalize-on-entry", "c07:threshold", "c07:cap", "c07:nul-guard", "c07:matcher-call",
               "c07:fuzzy-version", "c04:fuzzy-gate"]
